@@ -9,9 +9,11 @@ import (
 	"encoding/json"
 	"os"
 	"strconv"
+	"time"
 )
 
 var vReplayVals map[string]string
+var vReplayParams map[string]int
 
 type vAssumeFailed struct{}
 type vAssertFailed struct{ Msg string }
@@ -23,10 +25,12 @@ func vGet(name string) (int64, bool) {
 			b, err := os.ReadFile(f)
 			if err == nil {
 				var top struct {
-					Model map[string]string `json:"model"`
+					Model  map[string]string `json:"model"`
+					Params map[string]int    `json:"params"`
 				}
 				if json.Unmarshal(b, &top) == nil && top.Model != nil {
 					vReplayVals = top.Model
+					vReplayParams = top.Params
 				}
 			}
 		}
@@ -89,6 +93,10 @@ func vAssert(c bool, msg string) {
 func vReach(label string)            {}
 func vKnown(class string, pred bool) {}
 func vParam(name string, def int) int {
+	vGet("")
+	if v, ok := vReplayParams[name]; ok {
+		return v
+	}
 	if s := os.Getenv("VERIF_PARAM_" + name); s != "" {
 		if n, err := strconv.Atoi(s); err == nil {
 			return n
@@ -121,6 +129,13 @@ func vStrEq(a, b string) bool { return a == b }
 
 // vSymbolic reports whether the harness runs under the symbolic engine.
 func vSymbolic() bool { return false }
+
+// vLocalZone makes time.Local a fixed zone `off` seconds east of UTC.
+func vLocalZone(off int) { time.Local = time.FixedZone("LOC", off) }
+
+// vClockFixed makes time.Now() return the given concrete Unix time from now
+// on (for harnesses in which time is not the subject). Native: no effect.
+func vClockFixed(sec int64) {}
 
 // vClockAdvance lets time pass: later time.Now() calls return a new, not
 // earlier, instant (native: real time passes anyway).
